@@ -1,1 +1,176 @@
-//! E-space explicit-state explorer
+//! E-space: explicit-state breadth-first search over UI-level action
+//! histories. A state is reached by replaying a history on a fresh
+//! implementation; states are deduplicated by a digest of the whole
+//! implementation state (hook `Runtime::verif_digest`, optionally combined
+//! with the reference model's state). Every transition is executed on the
+//! real code and judged by the model's oracle.
+//!
+//! The search is deterministic: successors of a level are sorted by history
+//! before representatives are chosen, so thread timing never changes the set
+//! of states, the representative histories or the first counterexample.
+
+use crate::engine::{hash64, Ctx, Sweep};
+use serde_json::Value;
+use std::collections::HashSet;
+use std::sync::atomic::{AtomicUsize, Ordering};
+use std::sync::Mutex;
+
+pub struct Step {
+    /// identity of the state reached
+    pub digest: u64,
+    /// violations of the oracle on the last transition: (signature, detail)
+    pub viols: Vec<(String, String)>,
+    /// hash of an observation that makes this transition non-trivial (if any)
+    pub nontrivial: Option<u64>,
+    /// do not expand this state further
+    pub terminal: bool,
+}
+
+pub trait SpaceModel: Sync {
+    fn name(&self) -> String;
+    fn action_names(&self) -> Vec<String>;
+    /// Replay `hist` (action indices) on a fresh system and judge the last
+    /// transition. None = the last action is not enabled there.
+    fn run(&self, hist: &[usize]) -> Option<Step>;
+    fn max_depth(&self) -> usize;
+    /// false = do not deduplicate (every history is its own state)
+    fn dedup(&self) -> bool {
+        true
+    }
+    fn crash_is_verdict(&self) -> bool {
+        false
+    }
+}
+
+pub struct SpaceSweep<M: SpaceModel> {
+    pub model: M,
+}
+
+fn describe<M: SpaceModel>(m: &M, hist: &[usize]) -> String {
+    let names = m.action_names();
+    hist.iter().map(|a| names[*a].clone()).collect::<Vec<_>>().join(" | ")
+}
+
+impl<M: SpaceModel> SpaceSweep<M> {
+    fn parse(&self, case: &str) -> Option<Vec<usize>> {
+        let names = self.model.action_names();
+        if case.is_empty() {
+            return Some(vec![]);
+        }
+        case.split(" | ").map(|n| names.iter().position(|x| x == n)).collect()
+    }
+}
+
+impl<M: SpaceModel> Sweep for SpaceSweep<M> {
+    fn name(&self) -> String {
+        self.model.name()
+    }
+    fn shards(&self) -> usize {
+        1
+    }
+    fn crash_is_verdict(&self) -> bool {
+        self.model.crash_is_verdict()
+    }
+    fn replay_case(&self, case: &Value, ctx: &mut Ctx) -> bool {
+        let hist = match case.as_str().and_then(|s| self.parse(s)) {
+            Some(h) => h,
+            None => return false,
+        };
+        ctx.force_case(case.as_str().unwrap_or(""));
+        if let Some(step) = crate::engine::guard(|| self.model.run(&hist)).unwrap_or(None) {
+            for (sig, detail) in step.viols {
+                ctx.violation(&sig, detail);
+            }
+        }
+        true
+    }
+    fn run_shard(&self, _shard: usize, ctx: &mut Ctx) {
+        if ctx.mode != crate::engine::Mode::Normal {
+            return;
+        }
+        let m = &self.model;
+        let nact = m.action_names().len();
+        let threads = crate::engine::threads();
+        let mut seen: HashSet<u64> = HashSet::new();
+        let mut frontier: Vec<Vec<usize>> = vec![vec![]];
+        if let Some(s0) = m.run(&[]) {
+            seen.insert(s0.digest);
+        }
+        let mut states = 1u64;
+        let mut transitions = 0u64;
+        for depth in 0..m.max_depth() {
+            // all (history, action) pairs of this level
+            let jobs: Vec<(usize, usize)> = (0..frontier.len()).flat_map(|i| (0..nact).map(move |a| (i, a))).collect();
+            let next_job = AtomicUsize::new(0);
+            let results: Mutex<Vec<(Vec<usize>, Step)>> = Mutex::new(vec![]);
+            std::thread::scope(|sc| {
+                for _ in 0..threads.min(jobs.len().max(1)) {
+                    sc.spawn(|| {
+                        let mut local = vec![];
+                        loop {
+                            let j = next_job.fetch_add(1, Ordering::Relaxed);
+                            if j >= jobs.len() {
+                                break;
+                            }
+                            let (i, a) = jobs[j];
+                            let mut h = frontier[i].clone();
+                            h.push(a);
+                            let r = crate::engine::guard(|| m.run(&h));
+                            match r {
+                                Ok(Some(step)) => local.push((h, step)),
+                                Ok(None) => {}
+                                Err(p) => local.push((
+                                    h,
+                                    Step {
+                                        digest: 0,
+                                        viols: vec![("panic".to_string(), p)],
+                                        nontrivial: None,
+                                        terminal: true,
+                                    },
+                                )),
+                            }
+                        }
+                        results.lock().unwrap().extend(local);
+                    });
+                }
+            });
+            let mut res = results.into_inner().unwrap();
+            res.sort_by(|a, b| a.0.cmp(&b.0));
+            let mut next = vec![];
+            for (h, step) in res {
+                transitions += 1;
+                let desc = describe(m, &h);
+                ctx.force_case(&desc);
+                ctx.acc.evals += 1;
+                if let Some(n) = step.nontrivial {
+                    ctx.nontrivial(n);
+                }
+                for (sig, detail) in &step.viols {
+                    ctx.violation(sig, detail.clone());
+                }
+                if ctx.acc.samples.len() < 3 && h.len() == depth + 1 && transitions % 7 == 1 {
+                    ctx.acc.samples.push(Value::String(desc));
+                }
+                if step.terminal {
+                    continue;
+                }
+                let d = if m.dedup() { step.digest } else { hash64(&h) };
+                if seen.insert(d) {
+                    states += 1;
+                    next.push(h);
+                }
+            }
+            ctx.count_n(&format!("{}:states_new_at_depth_{}", m.name(), depth + 1), next.len() as u64);
+            frontier = next;
+            if frontier.is_empty() {
+                ctx.count(&format!("{}:search_closed_at_depth_{}", m.name(), depth + 1));
+                break;
+            }
+        }
+        ctx.acc.transitions += transitions;
+        for d in seen {
+            ctx.acc.states.insert(d);
+        }
+        let _ = states;
+    }
+}
